@@ -31,7 +31,8 @@ def main():
             return None
         env = vf.henv(d)
         evs = []
-        for k, o in enumerate(sets if c.thorough else c.rng.sample(sets, 6) + [[], list(LOSSLESS)]):
+        # thorough: all 128 option sets for every eighth program, 24 sampled sets for the others
+        for k, o in enumerate((sets if idx % 8 == 0 else c.rng.sample(sets, 24) + [[], list(LOSSLESS)]) if c.thorough else c.rng.sample(sets, 6) + [[], list(LOSSLESS)]):
             fl = [x for s in o for x in s.split()]
             abi = "%s.%d.abi" % (path, k)
             rw = vf.run([abidw] + fl + ["--out-file", abi, path], env=env)
@@ -52,7 +53,7 @@ def main():
     c.cov["programs"] = len(cases)
     c.cov["distinct_nontrivial"] = len({(e["case"], e["comp"], e["opts"]) for e in events if e["opts"] and campaign.nontrivial_program(cases[e["case"]])})
     c.cov["rule"] = ("TLC-generated programs (Abi.tla) x %s x subsets of the 7 lossless abidw options (%s); per triple: abidw, abidiff B B.abi, abidw --abidiff; "
-                     "non-trivial = distinct (program with >= 2 composite type kinds, compiler, non-empty option set)" % (comps, "all 128" if c.thorough else "8 per program"))
+                     "non-trivial = distinct (program with >= 2 composite type kinds, compiler, non-empty option set)" % (comps, "all 128 (every eighth program) or 26 per program" if c.thorough else "8 per program"))
     for e in events[:3]:
         c.sample(e)
     case_of = lambda ev: campaign.case_files(os.path.join(c.workdir, "p%d" % ev["case"]))
